@@ -182,6 +182,15 @@ COLLIDING = [
      "copy_file('o.txt', 'x/a.txt')\ncopy_file('o.txt', 'y/a.txt')\n"),
     ('submodule-and-root-same-output', ['a.c', 'sub/b.c'], None),
 ]
+# the second claimant of a path is a phony target (alias, command, the aggregate `tests` target)
+COLLIDING += [
+    ('alias-after-executable', ['a.c'], "e = executable('t', ['a.c'])\nalias('t', [e])\n"),
+    ('alias-after-copy', ['a.txt'], "c = copy_file('share/data', 'a.txt')\nalias('share/data', [c])\n"),
+    ('alias-twice', ['a.c'], "e = executable('p', ['a.c'])\nalias('t', [e])\nalias('t', [e])\n"),
+    ('command-after-executable', ['a.c'], "executable('t', ['a.c'])\ncommand('t', cmd=['true'])\n"),
+    ('executable-named-tests-with-test', ['a.c'], "e = executable('tests', ['a.c'])\ntest(e)\n"),
+    ('executable-after-alias', ['a.c', 'b.c'], "e = executable('p', ['a.c'])\nalias('t', [e])\nexecutable('t', ['b.c'])\n"),
+]
 # every position of a three-output step against a later / an earlier single- or two-output step
 for _pos in range(3):
     _multi = "build_step(['m1', 'm2', 'm3'], cmd=['touch', 'm1', 'm2', 'm3'])\n"
